@@ -166,6 +166,37 @@ def run(ch, build):
             mm = {"noreader": "noreader", "unavailable": "ErrSensorReadingUnavailable", "scanningdisabled": "ErrSensorScanningDisabled"}.get(mo, mo)
             if mm != impl_err:
                 ch.corr_break(desc, dict(detail, what="model %s, implementation %s" % (mo, impl_err)))
+    # one reader polled repeatedly: every ordered pair of flag combinations (an earlier response must not stick)
+    import itertools
+    flagbytes = [((f & 1) << 7) | (((f >> 1) & 1) << 6) | (((f >> 2) & 1) << 5) for f in range(8)]
+    seqs = [list(pq) for pq in itertools.product(flagbytes, repeat=2)] + [[0x60, 0x40, 0x00, 0x40, 0x60, 0x40]]
+    su = hist.SUITES[0]
+    scn = {"bmc": conn.default_bmc(seed=22, suites=[[100, su[0], su[1], su[2]]]), "timeout_ms": 40, "steps": [hs.open_step(suites=[su])]}
+    body = fsr_body(rng, 2, 5, 1, -1, 0, 0, number=9)
+    for sq in seqs:
+        scn["steps"].append({"op": "sensorseq", "conn": "session", "fsr": body.hex(), "script": [bytes([100 + k, fb, 0]).hex() for k, fb in enumerate(sq)]})
+    out = conn.run_scenarios([scn])[0]
+    for sq, res in zip(seqs, out["steps"][1:]):
+        ch.note_case("c15-repoll", str(sq))
+        want = []
+        for k, fb in enumerate(sq):
+            if fb & 0x20:
+                want.append("ErrSensorReadingUnavailable")
+            elif not fb & 0x40:
+                want.append("ErrSensorScanningDisabled")
+            else:
+                want.append(float((Fraction(2 * (100 + k)) + Fraction(5) * 10) / 10))
+        got = res.get("value", "").split(" ")
+        def same(g, w):
+            if isinstance(w, float):
+                try:
+                    return abs(float(g) - w) <= 1e-12 * max(1.0, abs(w))
+                except ValueError:
+                    return False
+            return g == w
+        if res.get("panic") or len(got) != len(want) or not all(same(g, w) for g, w in zip(got, want)):
+            ch.violation({"kind": "c15", "family": "repoll"}, {"flags": sq, "impl": got, "want": want, "fsr": body.hex(),
+                         "what": "a reader polled repeatedly must report each response's own flags and value"})
     ch.extra["tuples"] = len(tuples)
     return ch.finish(rule=RULE, assumptions=["floating-point rounding is not modelled: float64 results are compared with an exact / 60-digit evaluation to 1e-12",
                                              "Go's math functions are the linearisers' implementation (code -> function table tied through Generated.v)"])
